@@ -254,8 +254,29 @@ def lvl4x(spec):
 LEVELS_X = [lvl0, lvl1, lvl2x, lvl3x, lvl4x]
 
 
-def f_glue(d, raise_at, catch_at, blocks, nosrc=False):
+class _FailingResume(asynq.AsyncContext):
+    def __init__(self):
+        self.n = 0
+
+    def resume(self):
+        self.n += 1
+        if self.n == 2:
+            raise prog.E("resume")
+
+    def pause(self):
+        pass
+
+
+@A()
+def _prelude_task():
+    with _FailingResume():
+        yield _It(0)
+    return 0
+
+
+def f_glue(d, raise_at, catch_at, blocks, nosrc=False, prelude=False):
     dd = conc(d, 7)
+    pl = concb(prelude)
     use_x = concb(nosrc) and 2 <= dd <= 4
     ra = conc(raise_at, 8) - 1           # -1: nobody raises
     ca = conc(catch_at, 8) - 1
@@ -268,6 +289,16 @@ def f_glue(d, raise_at, catch_at, blocks, nosrc=False):
     stack_out = []
     spec = Spec(ra, ca, bl, stack_out)
     try:
+        if pl:
+            # an earlier computation on this thread failed because a context could not be resumed after a flush
+            try:
+                _prelude_task()
+                return rec.fail("prelude: a failing context resume did not fail the task")
+            except prog.E:
+                pass
+            if D.format_asynq_stack() is not None:
+                return rec.fail("format_asynq_stack() outside any task is not None after a computation failed in a "
+                                "context resume")
         try:
             got = ("v", (LEVELS_X if use_x else LEVELS)[dd](spec))
         except prog.E as e:
@@ -319,7 +350,7 @@ def f_glue(d, raise_at, catch_at, blocks, nosrc=False):
         if D.format_asynq_stack() is not None:
             return rec.fail("format_asynq_stack() outside any task is not None")
         rec.wit("paths")
-        rec.done(("glue", dd, ra, ca, bl), True)
+        rec.done(("glue", dd, ra, ca, bl, pl), True)
         return True
     finally:
         prog.reset_globals()
@@ -726,9 +757,10 @@ def conds(tier):
                     pin=2, builds=("P",), budget=300 if q else 1800,
                     family="filter_traceback: all sequences of <= %d lines over a 6-line alphabet" % nfree, encodes=ENC))
     out.append(Cond("glue", f_glue, [I("d", 0, 4 if q else 6), I("raise_at", 0, 7), I("catch_at", 0, 7), B("blocks"),
-                                     B("nosrc")],
+                                     B("nosrc"), B("prelude")],
                     pin=1, builds=("C", "P"), budget=200,
-                    family="glued tracebacks / format_asynq_stack: depth x raise position x re-raise position",
+                    family="glued tracebacks / format_asynq_stack: depth x raise position x re-raise position, "
+                           "optionally after an earlier computation failed in a context resume",
                     encodes=ENC))
     out.append(Cond("handover", f_handover, [B("blocks"), I("depth", 0, 2), I("via", 0, 2)], pin=0, builds=("C", "P"),
                     budget=100, family="format_asynq_stack in a task that outlives the tasks that created it (created, "
